@@ -78,6 +78,8 @@ def _run(job):
             ctxs = [(job["target"], run.analyze_root(f, job["target"], job["model"]))]
         elif job["kind"] == "roundcls":
             ctxs = [("round classes " + job["target"], run.analyze_round_classes(f, job["target"]))]
+        elif job["kind"] == "truncflag":
+            ctxs = [("truncation flag " + job["target"], run.analyze_truncflag(f, job["target"]))]
         elif job["kind"] == "window":
             ctxs = [("window classes " + job["target"], run.analyze_window_classes(f, job["target"]))]
         elif job["kind"] == "hi64":
